@@ -49,7 +49,8 @@ def _run(cmd, path, timeout):
       with open(path2, 'w') as fh:
         fh.write('(set-logic HO_ALL)\n' + body)
       try:
-        p = subprocess.run(cmd + [f'--tlimit={int(timeout * 1000)}', path2],
+        extra = ['--strings-exp'] if '(String' in body or 'str.' in body else []
+        p = subprocess.run(cmd + extra + [f'--tlimit={int(timeout * 1000)}', path2],
                            capture_output=True, text=True, timeout=timeout + 5)
       finally:
         os.unlink(path2)
